@@ -238,17 +238,31 @@ def case_reproject(mon: Monitor, rng: random.Random) -> None:
     coord_name = rng.choice(["spatial_ref", "spatial_ref", "crs", "projection"])
     xx = wrap_xr(mk(data), src, nodata=rng.choice([None, 0]), crs_coord_name=coord_name)
     xx.attrs.update({"crs": str(src.crs), "units": "furlongs"} if rng.random() < 0.5 else {"epsg": 0, "long_name": "thing"})
+    rkw = {}
     if how_kind == "geobox":
         how, want = dst, dst
     else:
         how = {"crs": str(dst.crs), "crs-lower": str(dst.crs).lower(), "utm": "utm"}[how_kind]
-        want, e = call(xx.odc.output_geobox, how)
+        # the request may carry grid options; what it asks for is what the plain function computes for the source GeoBox (C11 judges that function), not what the accessor
+        # - the entry point under observation here - says it would do
+        from odc.geo.overlap import compute_output_geobox
+        from odc.geo.types import AnchorEnum
+
+        rkw = rng.choice([{}, {}, {}, {"anchor": "center"}, {"anchor": "edge"}, {"anchor": AnchorEnum.CENTER}, {"anchor": 0.25}, {"resolution": "same"}, {"tight": True}, {"anchor": "floating"}, {"resolution": "fit", "anchor": "center"}])
+        want, e = call(compute_output_geobox, src, how, **rkw)
         if e is not None:
             return mon.skip("reproject", "output_geobox failed (C11's domain)")
+        if rkw.get("resolution") == "same" and want.crs.units != src.crs.units:
+            return mon.skip("reproject", "the source's pixel size kept across different units: not a meaningful request")
+        if want.shape[0] * want.shape[1] > 20_000 or 0 in want.shape:
+            return mon.skip("reproject", "requested grid too large for this check (e.g. the source's resolution kept across units)")
+        via_acc, e_acc = call(xx.odc.output_geobox, how, **rkw)
+        mon.check(e_acc is None and same_box(via_acc, want), "reproject.output_geobox", lambda: {"src": gen.gbox_desc(src), "how": how, "options": repr(rkw), "accessor": gen.gbox_desc(via_acc) if via_acc is not None else None,
+                  "function": gen.gbox_desc(want), "exc": e_acc}, key="accessor-grid-differs", cls=("same-crs" if not cross else "cross") + ("|options" if rkw else ""))
     desc = {"src": gen.gbox_desc(src), "how": how_kind, "dst": gen.gbox_desc(want), "container": container, "backing": backing, "placement": place, "crs_coord_name": coord_name}
     cls = f"{container}|{'cross' if cross else 'same'}|{how_kind}"
     if container == "DataArray":
-        out, e = call(xr_reproject, xx, how) if rng.random() < 0.5 else call(xx.odc.reproject, how)
+        out, e = call(xr_reproject, xx, how, **rkw) if rng.random() < 0.5 else call(xx.odc.reproject, how, **rkw)
         if e is not None:
             return mon.fail("reproject", {**desc, "exc": e}, key="reproject-raises", cls=cls)
         outs = {"": out}
@@ -261,7 +275,7 @@ def case_reproject(mon: Monitor, rng: random.Random) -> None:
         ds_spatial = rng.choice([{}, {"crs": str(src.crs)}, {"crs": str(src.crs), "grid_mapping": coord_name}, {"crs_wkt": src.crs.wkt, "epsg": src.crs.epsg or 0}])
         ds.attrs.update(ds_spatial)
         desc["dataset_attrs"] = sorted(ds_spatial)
-        out, e = call(xr_reproject, ds, how) if rng.random() < 0.5 else call(ds.odc.reproject, how)
+        out, e = call(xr_reproject, ds, how, **rkw) if rng.random() < 0.5 else call(ds.odc.reproject, how, **rkw)
         if e is not None:
             return mon.fail("reproject", {**desc, "exc": e}, key="reproject-raises", cls=cls)
         g_ds, e2 = call(lambda: out.odc.geobox)
